@@ -187,12 +187,19 @@ def run_spec(p, res):
             def g(s):
                 f(s)
             return g
+
+        def rt(t):
+            # a round trip WITHOUT a reset in between: as long as modulator and demodulator have seen the same calls they stay in step,
+            # in training mode (state carried) and in eval mode alike
+            def g(s):
+                return roundtrip(s[0], s[1], t, kind, b, reset=False)
+            return g
         ops = [("train", op(lambda s: (s[0].train(), s[1].train()))), ("eval", op(lambda s: (s[0].eval(), s[1].eval()))),
                ("reset", op(lambda s: (s[0].reset_state(), s[1].reset_state())))]
         for i, sq in enumerate(pool):
             t = torch.tensor([sq], dtype=f32)
             ops.append((f"mod(s{i})", op(lambda s, t=t: s[0](t))))
-            ops.append((f"rt(s{i})", op(lambda s, t=t: s[1](s[0](t)))))
+            ops.append((f"rt(s{i})", rt(t)))
 
         def canon(s):
             return (bfs.canon_module(s[0]), bfs.canon_module(s[1]))
@@ -201,6 +208,9 @@ def run_spec(p, res):
             if isinstance(obs, Exception):
                 res.viol(scheme, f"{cfg};history", "raises", f"history {list(names)}: {type(obs).__name__}: {str(obs)[:160]}", {"history": list(names)})
                 return
+            if isinstance(obs, list) and obs and not any(nm.startswith("mod(") for nm in names):
+                for clause, detail in obs:
+                    res.viol(scheme, f"{cfg};history", "in-step" if clause == "roundtrip" else clause, f"history {list(names)} (modulator and demodulator saw the same calls, no reset before the last one): {detail}", {"history": list(names)})
             s[0].eval()
             s[1].eval()
             try:
